@@ -10,6 +10,7 @@ use std::alloc::{GlobalAlloc, Layout, System};
 use std::io::Cursor;
 use std::sync::atomic::{AtomicUsize, Ordering};
 
+mod admission;
 mod filters;
 mod fixedloc;
 mod cipher;
@@ -77,6 +78,7 @@ fn main() {
         "locale" => conn::locale(seed),
         "fixed_locale" => fixedloc::sweep(seed),
         "filters" => filters::sweep(seed),
+        "admission" => admission::sweep(seed),
         "limits" => conn::limits(seed),
         "session" => conn::session(seed),
         "enc_response" => conn::enc_response(seed),
